@@ -203,6 +203,49 @@ class Generated(Part):
                 return
 
 
+class StyleCodes(Part):
+    name = "style-codes"
+    rule = ("one Style object (generated foreground x background from all colour kinds incl. default / system / 256 / RGB, x bold/italic) rendered with Style.render under a "
+            "generated sequence of 2-4 colour systems: the SGR parameters written for each system are the attribute codes followed by the standard parameters of each "
+            "colour down-converted to that system (computed from freshly built colours), whatever was rendered before; non-trivial = foreground and background of "
+            "different kinds and >= 2 distinct systems")
+    budget = {"quick": (4, 1500), "thorough": (16, 10000)}
+
+    def strategy(self, tier):
+        src = Generated().strategy(tier)
+        return st.builds(lambda fg, bg, attrs, systems: {"fg": fg, "bg": bg, "attrs": attrs, "systems": systems}, st.one_of(st.none(), src, src), st.one_of(st.none(), src, src),
+                         st.lists(st.sampled_from(["bold", "italic", "underline"]), max_size=2, unique=True), st.lists(st.sampled_from(SYSTEMS), min_size=2, max_size=4))
+
+    def check(self, spec, ctx):
+        import re
+        from rich.color import ColorSystem
+        from rich.style import Style
+
+        g = Generated()
+        fg = g.build(spec["fg"])[0] if spec["fg"] else None
+        bg = g.build(spec["bg"])[0] if spec["bg"] else None
+        style = sut(Style, color=fg, bgcolor=bg, **{a: True for a in spec["attrs"]})
+        attr_code = {"bold": "1", "italic": "3", "underline": "4"}
+        for si, sysname in enumerate(spec["systems"]):
+            system = ColorSystem[sysname]
+            out = sut(style.render, "X", color_system=system)
+            want = [attr_code[a] for a in ("bold", "italic", "underline") if a in spec["attrs"]]
+            for src, is_fg in ((spec["fg"], True), (spec["bg"], False)):
+                if src:
+                    fresh = g.build(src)[0]
+                    down = sut(fresh.downgrade, system)
+                    want += list(expected_codes(kind_of(down), is_fg))
+            m = re.fullmatch(r"\x1b\[([0-9;]*)mX\x1b\[0m", out)
+            got = m.group(1).split(";") if m else (None if out != "X" else [])
+            if got != want:
+                ctx.violation("sgr", "C18/sgr/style-%s" % ("first" if si == 0 else "after-another-system"),
+                              "Style(color=%r, bgcolor=%r, %r) rendered for %s (after %r) as %r, expected parameters %r" % (fg, bg, spec["attrs"], sysname, spec["systems"][:si], out, want))
+                return
+        if fg is not None and bg is not None and fg.type != bg.type and len(set(spec["systems"])) >= 2:
+            ctx.nontrivial = True
+            ctx.cls("mixed-kinds")
+
+
 class Enumerated(Part):
     name = "enumerated"
     custom = True
@@ -332,4 +375,4 @@ class Enumerated(Part):
             check_codes(ctx, d)
 
 
-PARTS = [Generated(), Enumerated()]
+PARTS = [Generated(), Enumerated(), StyleCodes()]
